@@ -86,8 +86,9 @@ def run_sessions(cases):
                 results.append((c, ran, obs, None))
             except Exception as e:   # driver problem
                 results.append((c, [], [], "%s: %s" % (type(e).__name__, e)))
-    logging.getLogger("asyncio").setLevel(logging.CRITICAL)
-    logging.getLogger("tornado").setLevel(logging.CRITICAL)
+    # the cb coroutines some nodes start on the caller's loop run once when the loop winds down and log
+    # errors about the dummy pipelines; nothing in this check relies on logging
+    logging.disable(logging.CRITICAL)
     with warnings.catch_warnings():
         warnings.simplefilter("ignore")
         asyncio.run(main())
